@@ -143,9 +143,9 @@ def q_reach_allow(ctx, p):
                 discharged += 1
                 continue
             for i, mre in enumerate(must):
-                if mre.search(nc):
+                if mre.search(nc) or mre.search(callee):
                     must_seen.add(i)
-            ok = (not any(d.search(nc) for d in deny)) if deny else any(a.search(nc) for a in allow)
+            ok = (not any(d.search(nc) or d.search(callee) for d in deny)) if deny else any(a.search(nc) for a in allow)
             # closures handed to the callee run under the same assumptions: descend
             for loc in re.findall(r"\{closure@([^}]*)\}", callee):
                 cf = closure_fn(funcs, loc)
@@ -161,7 +161,7 @@ def q_reach_allow(ctx, p):
                                       what="call %s reachable in %s bb%d under %s" % (nc, where, b, p.get("assume", []))))
         details.append("%s: %d call sites examined" % (fn.name.split(">::")[-1], len(enc.call_sites())))
     miss = [p["must_reach"][i] for i in range(len(must)) if i not in must_seen]
-    if miss:
+    if miss and not witnesses:
         return dict(status="inconclusive", reason="vacuity guard: expected reachable calls not found: %s" % miss,
                     obligations=obligations, discharged=discharged, functions=functions, details=details)
     # de-duplicate witnesses by key
